@@ -184,6 +184,12 @@ func (c *vfcClient) roStep(r *rand.Rand) {
 	if r.Intn(2) == 0 {
 		proc = mut[r.Intn(len(mut))]
 	}
+	accessAll := false
+	if r.Intn(10) == 0 {
+		// ACCESS asking for everything on a directory (DELETE is only meaningful there)
+		proc, accessAll, h = NFSPROC3_ACCESS, true, d
+		p = dp
+	}
 	var args []byte
 	meta := M{"h": p}
 	roles := map[string][]string{}
@@ -204,6 +210,9 @@ func (c *vfcClient) roStep(r *rand.Rand) {
 		meta = M{"h": dp, "name": name, "ncls": vfcNameClass(name)}
 	case NFSPROC3_ACCESS:
 		mask := uint32(r.Intn(64))
+		if accessAll {
+			mask = 63
+		}
 		args = vfArgsAccess(h, mask)
 		meta["mask"] = int(mask)
 	case NFSPROC3_READ:
@@ -243,6 +252,9 @@ func (c *vfcClient) roStep(r *rand.Rand) {
 		args = vfArgsCommit(h, 0, 0)
 	}
 	args, how := vfcMangle(r, args)
+	if accessAll {
+		args, how = vfArgsAccess(h, 63), "ok"
+	}
 	// this profile only states the read-only clauses (and "a failed request changes nothing"):
 	// the line is marked so that the POSIX outcome rules are not applied to possibly malformed calls
 	meta["rocheck"] = true
